@@ -921,9 +921,11 @@ func run(ctx *Ctx) *Result {
 				}
 				if st2 != 0 {
 					culprit := "other"
-					if peerlessEntry(st) {
-						culprit = "crypto_map_entry_without_peer_in_intermediate_state" // computed from the state, not from drc's message
-					} else if mixedMapHosts(st, c.spoc) {
+					// both attributes are computed from the state; drc's message only selects which of two present causes it names
+					switch {
+					case peerlessEntry(st) && (drcReason(err2) == "crypto_map_entry_without_peer" || !mixedMapHosts(st, c.spoc)):
+						culprit = "crypto_map_entry_without_peer_in_intermediate_state"
+					case mixedMapHosts(st, c.spoc):
 						culprit = "ldap_attribute_map_left_on_further_hosts_of_aaa_server"
 					}
 					res.Fail(sig("resume_state_not_accepted", "reason", drcReason(err2), "culprit", culprit), where+": drc rejects the intermediate device: "+strings.TrimSpace(err2)+"\n-- script\n"+out, c)
